@@ -1,4 +1,5 @@
 import Fdo.Drv.Cbor
+import Fdo.Drv.Typed
 import Fdo.Drv.Prim
 /-
 Line-protocol driver: one operation per input line, one reply per output line.
@@ -12,7 +13,8 @@ def dispatch (line : String) : String :=
   | ["flush"] => "flushed"
   | cmd :: args =>
     let r :=
-      if cmd.startsWith "cbor." then Drv.Cbor.handle cmd args
+      if cmd == "cbor.typed" then Drv.Typed.handle cmd args
+      else if cmd.startsWith "cbor." then Drv.Cbor.handle cmd args
       else if cmd.startsWith "prim." then Drv.Prim.handle cmd args
       else none
     r.getD "bad-op"
